@@ -292,6 +292,12 @@ func injIndices(b *Schema, emit emitter) {
 			c := b.clone()
 			c.records()[ri].Rec.Fields[x].Index = "0"
 			emit(Case{Class: "message-index-zero", SiteKind: sk, Site: fmt.Sprintf("%s: field %s gets index 0", r.Rec.Name, r.Rec.Fields[x].Name), Schema: c.Render(), Expect: "reject"})
+			// an index is one byte on the wire: 256 is index 0 again, 257 index 1 (a duplicate or not, it cannot be written)
+			for _, big := range []string{"256", "257", "512", "65536", "4294967296"} {
+				c = b.clone()
+				c.records()[ri].Rec.Fields[x].Index = big
+				emit(Case{Class: "message-index-zero", SiteKind: sk, Detail: "index=" + big, Site: fmt.Sprintf("%s: field %s gets index %s", r.Rec.Name, r.Rec.Fields[x].Name, big), Schema: c.Render(), Expect: "reject"})
+			}
 			c = b.clone()
 			c.records()[ri].Rec.Fields[x].Index = "201"
 			emit(Case{Class: "message-index-zero", SiteKind: sk, Site: fmt.Sprintf("%s: field %s gets index 201", r.Rec.Name, r.Rec.Fields[x].Name), Schema: c.Render(), Expect: "accept", Control: true})
@@ -314,6 +320,12 @@ func injIndices(b *Schema, emit emitter) {
 					emit(Case{Class: "duplicate-union-discriminator", SiteKind: kindPair("union-branch-"+u.Branches[x].Rec.Kind, "union-branch-"+u.Branches[y].Rec.Kind), Detail: sp,
 						Site: fmt.Sprintf("union %s: member %s gets discriminator %s", u.Name, u.Branches[y].Rec.Name, idx), Schema: c.Render(), Expect: "reject"})
 				}
+			}
+			for _, big := range []string{"256", "257", "65536"} {
+				c := b.clone()
+				c.Defs[di].Un.Branches[x].Disc = big
+				emit(Case{Class: "duplicate-union-discriminator", SiteKind: "union-branch-" + d.Un.Branches[x].Rec.Kind, Detail: "discriminator=" + big,
+					Site: "union " + d.Un.Name + ": discriminator " + big + " (one byte on the wire)", Schema: c.Render(), Expect: "reject"})
 			}
 			c := b.clone()
 			c.Defs[di].Un.Branches[x].Disc = "202"
@@ -882,6 +894,15 @@ func unionMemberCycleCases(emit emitter) {
 	rej("readonly-top-level", "branch struct and a readonly struct hold each other", "union U {\n    1 -> struct A {\n        B b;\n    }\n}\nreadonly struct B {\n    A a;\n}\n", 2)
 	acc("through-message", "branch struct A holds message M, M holds A", "union U {\n    1 -> struct A {\n        M m;\n    }\n}\nmessage M {\n    1 -> A a;\n}\n")
 	acc("through-its-union", "branch struct A holds its own union, which has another branch", "union U {\n    1 -> struct A {\n        U u;\n    }\n    2 -> struct Z {\n        int32 v;\n    }\n}\n")
+	// a MESSAGE declared as a union branch: every field is optional, so naming itself (or being named back) always terminates
+	accM := func(detail, site, text string) {
+		emit(Case{Base: "union-member-cycle", Class: "terminating-recursion", SiteKind: "union-member-message", Detail: detail, Site: site, Schema: text, Expect: "accept"})
+	}
+	accM("branch-message-self", "a branch message has a field of its own type", "union Tree {\n    1 -> message Node {\n        1 -> int32 v;\n        2 -> Node left;\n        3 -> Node right;\n    }\n}\n")
+	accM("branch-message-self-array", "a branch message holds an array and a map of itself", "union Tree {\n    1 -> message Node {\n        1 -> Node[] kids;\n        2 -> map[string, Node] named;\n    }\n}\n")
+	accM("struct-and-branch-message", "top-level struct S holds branch message Link, Link holds S", "struct S {\n    Link l;\n}\nunion U {\n    1 -> message Link {\n        1 -> S s;\n    }\n}\n")
+	accM("branch-messages-of-two-unions", "branch messages of two unions name each other", "union U {\n    1 -> message Ping {\n        1 -> Pong p;\n    }\n}\nunion V {\n    1 -> message Pong {\n        1 -> Ping p;\n    }\n}\n")
+	accM("branch-struct-and-branch-message", "branch struct A holds sibling branch message B, B holds A", "union U {\n    1 -> struct A {\n        B b;\n    }\n    2 -> message B {\n        1 -> A a;\n    }\n}\n")
 	acc("array-free-chain", "branch struct A holds top-level struct B, no way back", "union U {\n    1 -> struct A {\n        B b;\n    }\n}\nstruct B {\n    int32 v;\n}\nstruct Uses {\n    A a;\n    B b;\n}\n")
 }
 
